@@ -29,6 +29,7 @@ STRUCTURAL = set(SIG) - {'a', 'b', '1', ' ', '\n', ',', '=', '|', '*'}
 EVERYTYPE_TOKENS = [
     '\\mstar', '\\mopt', '\\mmand', '\\mm', '\\mo', '\\ms', '\\mt', '\\mr', '\\md', '\\mv', '\\mvb',
     '\\mcombo', '\\mmath', '\\mtext', '\\begin{eenv}', '\\end{eenv}', '+', '<', '>',
+    '\\me', '^', '_', '\\many', '\\manyo', '(', ')',
 ]
 
 MATH9 = ['$', 'a', '{', '}', ' ', '\\(', '\\)', '\\[', '\\]']
